@@ -498,12 +498,18 @@ class ParallelSpecFinder(Generic[ClassType1, ObjType1, ClassType2, ObjType2]):
         sp2: SpecMap,
     ):
         """If ids are not in the matching order or if one is assigned but those
-        children aren't compatible with the other.
+        children aren't compatible with the other, or both are assigned but not to
+        rules that match each other.
         """
         return (
             (id1, id2) not in matching_info
             or (id1 in sp1 and sp1[id1] not in matching_info1[id1][id2])
             or (id2 in sp2 and sp2[id2] not in matching_info2[id2][id1])
+            or (
+                id1 in sp1
+                and id2 in sp2
+                and (sp1[id1], sp2[id2]) not in matching_info[(id1, id2)]
+            )
         )
 
     @staticmethod
